@@ -175,6 +175,25 @@ def cases(tier, cfg):
                         f"c09::run<K>(fx, {'true' if fname == 'div' else 'false'});")
                 alias = "D_on_rhs" if x.usesD else "no_alias"
                 out.append(Case(f"C09/stmt[{t}|N={n}|D {op} {x.l}]", body, route=f"{g}.{fname}.{alias}", cost=0.35 + 0.1 * x.depth + (0.6 if n == 5 else 0)))
+    # rectangular operands (A, B: m x n): the statements whose destination extents differ from the operand's
+    if main:
+        rect_shapes = ((2, 3), (5, 3), (3, 4), (1, 4), (4, 9)) if tier == "quick" else ((2, 3), (3, 2), (5, 3), (3, 5), (3, 4), (1, 4), (4, 1), (4, 9), (9, 4), (7, 8), (2, 17))
+        rect_types = ("f64", "f32") if base else ("f64",)
+        # (lazy, eager, destination extents as a function of (m, n))
+        rect_stmts = [("trans(A)", "transpose(A)", "nm"), ("trans(A + B)", "transpose(evaluate(A + B))", "nm"), ("trans(A) + trans(B)", "transpose(A) + transpose(B)", "nm"),
+                      ("2 * trans(A)", "2 * transpose(A)", "nm"), ("A % trans(B)", "matmul(A, transpose(B))", "mm"), ("trans(A) % B", "matmul(transpose(A), B)", "nn"),
+                      ("trans(A % trans(B)) ", "transpose(matmul(A, transpose(B)))", "mm"), ("trans(trans(A))", "transpose(transpose(A))", "mn")]
+        for t in rect_types:
+            ct = CTYPE[t]
+            for (m, n) in rect_shapes:
+                for l, e, dext in rect_stmts:
+                    d0, d1 = {"nm": (n, m), "mm": (m, m), "nn": (n, n), "mn": (m, n)}[dext]
+                    for fname, op in FORMS:
+                        body = (f"struct K {{ using T = {ct}; using MA = Fastor::Tensor<{ct},{m},{n}>; using MD = Fastor::Tensor<{ct},{d0},{d1}>; "
+                                f"static void lazy(MD& D, const MA& A, const MA& B) {{ using namespace Fastor; D {op} {l}; }} "
+                                f"static void eager(MD& D, const MA& A, const MA& B) {{ using namespace Fastor; D {op} {e}; }} }}; "
+                                f"c09::run_rect<K>(fx);")
+                        out.append(Case(f"C09/rect[{t}|A={m}x{n}|D {op} {l.strip()}]", body, route=f"rect.{fname}", cost=0.35))
     # product chains
     if base:
         exts = (2, 3, 5) if tier == "quick" else (1, 2, 3, 5)
@@ -204,6 +223,6 @@ def cases(tier, cfg):
 
 def bounds(tier):
     return {"quick": "all depth<=2 statements over {%,inv,trans,cof,adj,solve,det,norm,trace} (every second element-wise wrapper), a quarter of depth 3; 3x3 f64 and 4x4 f32; "
-                     "five operators; destination absent / element-wise on the right-hand side; chains k=2..4 over extents {2,3,5} (all patterns); S2,A2,A5",
-            "thorough": "all generated statements depth<=3, sizes 3,4 (5 for the pure evaluation groups), f32 and f64, five operators; chains k=2..5 over extents {1,2,3,5} "
+                     "five operators; destination absent / element-wise on the right-hand side; 8 rectangular-operand statements (trans, % with trans) x 5 shapes x five operators x f32,f64; chains k=2..4 over extents {2,3,5} (all patterns); S2,A2,A5",
+            "thorough": "all generated statements depth<=3, sizes 3,4 (5 for the pure evaluation groups), f32 and f64, five operators; 8 rectangular-operand statements x 11 shapes x five operators; chains k=2..5 over extents {1,2,3,5} "
                         "(k<=3 all patterns, k>=4 every fourth); six ISAs + C++17"}[tier]
